@@ -47,6 +47,8 @@ def gen_program(seed, idx, tier):
     g.on_reset = rs.below(4) == 0
     g.push = rs.below(3) == 0
     prog = g.program()
+    if not g.on_reset and rs.below(4) == 0:
+        prog["reset"]["derive"] = {"op": rs.choice(["or", "and"]), "low": bool(rs.below(2))}
     if rs.below(4) == 0:
         prog["tap"] = rs.choice(["q", "r"] + (["nr"] if "nr" in g.targets else []))
     return prog
@@ -64,10 +66,18 @@ class Runner:
         self.outs = self.ref.OUTS
         self.rst_active = False
         self.prev = None
+        # derived context (or_reset / and_reset): a second reset pin xr with its own polarity; src = the pins a fault drives
+        self.derive = prog["reset"].get("derive")
+        self.Lx = 0 if (self.derive or {}).get("low") else 1
+        self.p_act = self.x_act = False
+        self.src = "p"
+        self.reset_seen = False
 
     def start(self, first):
         f = dict(first)
         f["rst"] = 1 - self.L
+        if self.derive:
+            f["xr"] = 1 - self.Lx
         self.b.start(f)
         self.prev = dict(first)
 
@@ -87,7 +97,23 @@ class Runner:
         return None
 
     def set_rst(self, level, where):
+        if self.derive:
+            on = level == self.L  # "assert" / "release" of the source(s) this fault drives
+            pins = {}
+            if "p" in self.src:
+                pins["rst"] = self.L if on else 1 - self.L
+                self.p_act = on
+            if "x" in self.src:
+                pins["xr"] = self.Lx if on else 1 - self.Lx
+                self.x_act = on
+            self.b.apply(pins)
+            self.rst_active = (self.p_act or self.x_act) if self.derive["op"] == "or" else (self.p_act and self.x_act)
+            self.reset_seen = self.reset_seen or (self.is_async and self.rst_active)
+            if self.is_async and self.rst_active:
+                self.ref.reset()
+            return self.check(where)
         self.b.apply({"rst": level})
+        self.reset_seen = True
         self.rst_active = level == self.L
         if self.is_async and self.rst_active:
             self.ref.reset()
@@ -103,6 +129,7 @@ class Runner:
                 return bad
         self.b.edge()
         if self.rst_active:
+            self.reset_seen = True
             self.ref.reset()
         elif not self.prog.get("step_cond") or step["en"]:
             self.ref.step(step)
@@ -175,6 +202,8 @@ def explore(prog, text, tn, seed, idx, tier, stats):
         F.b.sim.restore(snaps[k][0])
         F.b.started = True
         F.prev = dict(snaps[k][1])
+        if F.derive:
+            F.src = frs.choice(["p", "x", "px"])
         for j in range(k):
             if not prog.get("step_cond") or base[j]["en"]:
                 F.ref.step(base[j])
@@ -198,7 +227,7 @@ def explore(prog, text, tn, seed, idx, tier, stats):
                 trace_after.append((step, {n: F.b.get(n) for n in F.outs}))
         stats["clocks"] += len(tail)
         # (ii) metamorphic: behaviour after release == behaviour after power-up
-        if all_default and trace_after and fname not in ("pulse-pre", "pulse-mid"):
+        if all_default and trace_after and F.reset_seen and fname not in ("pulse-pre", "pulse-mid"):
             P = Runner(prog, design, oseed, f"power{k}")
             P.start(trace_after[0][0])
             for t, (step, outs) in enumerate(trace_after):
